@@ -12,9 +12,34 @@ func (ex *Exec) intTerm(n int) *Term { return ex.tt.BV(uint64(int64(n)), 64) }
 func (ex *Exec) callBuiltin(b *ssa.Builtin, args []Value, site *ssa.CallCommon) Value {
 	tt := ex.tt
 	switch b.Name() {
+	case "len", "cap", "copy":
+	case "append":
+		if y, ok := args[1].(*SliceVal); ok && y.symLen != nil {
+			s := ex.mat(args[0].(*SliceVal))
+			if _, _, scalar := bvInfo(y.arr.et); scalar {
+				// append(s, big...): the result is a fresh large buffer
+				a := &ArrObj{e: make([]Value, s.len+y.len), et: y.arr.et, id: ex.nextID()}
+				for i := 0; i < s.len; i++ {
+					a.e[i] = s.arr.e[s.off+i]
+				}
+				for i := 0; i < y.len; i++ {
+					a.e[s.len+i] = y.arr.e[y.off+i]
+				}
+				nl := tt.Add(ex.intTerm(s.len), y.symLen)
+				return &SliceVal{arr: a, off: 0, len: len(a.e), cap: len(a.e), symLen: nl, symCap: nl}
+			}
+		}
+		ex.matArgs(args)
+	default:
+		ex.matArgs(args)
+	}
+	switch b.Name() {
 	case "len":
 		switch x := args[0].(type) {
 		case *SliceVal:
+			if x.symLen != nil {
+				return x.symLen
+			}
 			return ex.intTerm(x.len)
 		case *StrVal:
 			return ex.intTerm(len(x.b))
@@ -42,6 +67,13 @@ func (ex *Exec) callBuiltin(b *ssa.Builtin, args []Value, site *ssa.CallCommon) 
 	case "cap":
 		switch x := args[0].(type) {
 		case *SliceVal:
+			if x.symCap != nil {
+				return x.symCap
+			}
+			if x.symLen != nil {
+				args[0] = ex.mat(x)
+				return ex.intTerm(args[0].(*SliceVal).cap)
+			}
 			return ex.intTerm(x.cap)
 		case *ArrObj:
 			return ex.intTerm(len(x.e))
@@ -72,6 +104,36 @@ func (ex *Exec) callBuiltin(b *ssa.Builtin, args []Value, site *ssa.CallCommon) 
 		return ex.appendVals(s, add, et)
 	case "copy":
 		dst := args[0].(*SliceVal)
+		if sv, ok := args[1].(*SliceVal); ok && sv.symLen != nil && dst.symLen != nil {
+			args[1] = ex.mat(sv)
+		}
+		if dst.symLen != nil {
+			// n = min(symbolic len(dst), concrete len(src)): split on which one is smaller
+			var ls int
+			switch src := args[1].(type) {
+			case *SliceVal:
+				ls = src.len
+			case *StrVal:
+				ls = len(src.b)
+			}
+			if ex.Decide(tt.Ule(ex.intTerm(ls), dst.symLen)) {
+				if ls > dst.len {
+					panic(pathEnd{kind: "bound", msg: "copy into a large symbolic-length buffer beyond its modelled cells"})
+				}
+				dst = &SliceVal{arr: dst.arr, off: dst.off, len: ls, cap: ls}
+			} else {
+				dst = ex.mat(dst)
+			}
+		} else if sv, ok := args[1].(*SliceVal); ok && sv.symLen != nil {
+			if ex.Decide(tt.Ule(ex.intTerm(dst.len), sv.symLen)) {
+				if dst.len > sv.len {
+					panic(pathEnd{kind: "bound", msg: "copy from a large symbolic-length buffer beyond its modelled cells"})
+				}
+				args[1] = &SliceVal{arr: sv.arr, off: sv.off, len: dst.len, cap: dst.len}
+			} else {
+				args[1] = ex.mat(sv)
+			}
+		}
 		n := dst.len
 		switch src := args[1].(type) {
 		case *SliceVal:
